@@ -450,6 +450,6 @@ def _shard(arg):
 
 
 def run(ctx):
-    n = 300 if ctx.quick else 4000
+    n = 300 if ctx.quick else 15000
     drivers = ["tridonic"] * 8 + ["luba"] * 3 + ["sci"] * 3 + ["hasseb"] * 2
     ctx.pmap(_shard, [(drivers[k], ctx.seed * 1000 + k, n) for k in range(16)])
